@@ -179,7 +179,7 @@ func c13(run *ev.Run) int {
 				go func(g int) {
 					defer wg.Done()
 					r := rand.New(rand.NewSource(run.Seed*1000003 + int64(rep*100000+procs*1000+g)))
-					for k := 0; k < K; k++ {
+					for k := 0; k < K && !run.Saturated(); k++ {
 						id := atomic.AddUint64(&nextID, 1) + 1<<40
 						st.oneCall(r, id, procs)
 						if k%10 == 9 {
@@ -320,10 +320,12 @@ func (s *c13State) oneCall(r *rand.Rand, id uint64, procs int) {
 		run.Violation(key+"/hang", "call did not return within 120 s under concurrency", trunc(dump, 30000))
 		return
 	}
-	select {
-	case <-call.Log.Finished:
-	case <-time.After(60 * time.Second):
-		run.Violation(key+"/handler-hang", "handler did not finish", nil)
+	if fin, inv := waitHandler(call, 60*time.Second); !fin {
+		if inv {
+			run.Violation(key+"/handler-hang", "handler did not finish", nil)
+		} else {
+			run.Violation(key+"/not-served", "the handler was never invoked; client error: "+errStr(cl.err), map[string]any{"client": c.name, "kind": kind.String(), "id": id})
+		}
 		return
 	}
 	hl := call.Log
